@@ -25,6 +25,7 @@ import Ogen.UuidText_proof
 import Ogen.DocLines_proof
 import Ogen.DurationText_proof
 import Ogen.BoundMerge_proof
+import Ogen.Listing_proof
 
 /-! Line-protocol driver over all executable models: `<model> <payload>` per line, one
     canonical output line per input line. Core-only (no Mathlib) so it links natively. -/
@@ -78,9 +79,11 @@ def dispatch (line : String) : String :=
     | "cmerge" => BoundM.countLine payload
     | "emerge" => BoundM.enumLine payload
     | "pmerge" => BoundM.propsLine payload
+    | "nmerge" => BoundM.nmergeLine payload
     | "durfmt" => DurT.fmtLine payload
     | "durval" => DurT.valLine payload
     | "docsplit" => DocLines.splitLineLine payload
+    | "lpad" => Listing.padLine payload
     | "uuidfmt" => UuidT.fmtLine payload
     | "uuidparse" => UuidT.parseLine payload
     | "authz" => AuthHDrv.authzLine payload
